@@ -360,7 +360,7 @@ def run_morph(chk, path, cases=None):
             o['rshape'] = r.shape
             o['rdtype'] = str(r.dtype)
         except ValueError as e:
-            o['err'] = str(e)[:80]
+            o['err'] = type(e).__name__
             chk.refusal('morph:ValueError')
         obs.append(o)
         lines.append(f"m{i}.w mw {zl(c['shape'])} {zl(c['values'])} {c['fnum']}")
@@ -625,7 +625,7 @@ def run_mgh(chk, path, cases=None):
                 else:
                     raw = img.to_bytes()
                     img2 = MGHImage.from_bytes(raw)
-                sa = h._structarr
+                sa = h                        # public mapping access to the header fields
                 o['ints'] = [int(sa['version'])] + [int(x) for x in sa['dims']] + [int(sa['type']), int(sa['dof'])]
                 o['good'] = int(sa['goodRASFlag'])
                 o['floats'] = f32bits(np.concatenate([sa['delta'].astype('<f4'), sa['Mdc'].astype('<f4').reshape(-1), sa['Pxyz_c'].astype('<f4')]))
@@ -633,7 +633,7 @@ def run_mgh(chk, path, cases=None):
                 o['data'] = np.asarray(data).astype(dt.newbyteorder('>')).tobytes(order='F')
                 o['raw'] = raw
                 h2 = img2.header
-                s2 = h2._structarr
+                s2 = h2
                 o['r_ints'] = [int(s2['version'])] + [int(x) for x in s2['dims']] + [int(s2['type']), int(s2['dof'])]
                 o['r_good'] = int(s2['goodRASFlag'])
                 o['r_floats'] = f32bits(np.concatenate([s2['delta'].astype('<f4'), s2['Mdc'].astype('<f4').reshape(-1), s2['Pxyz_c'].astype('<f4')]))
